@@ -109,8 +109,30 @@ def explore(ctx):
             what = ("in-range value: honest presentation not created/accepted" if inr
                     else "out-of-range value: presentation created" + (" and accepted" if "verify-ok" in outcome else ""))
             failures.append({"class": None, "witness": True, "text": f"{what}: v={v} lower={lo} upper={hi} suite={op['suite']} impl={outcome} model={m}", "case": case})
+    # thorough: the same cases on the library built with overflow checks and debug assertions (what a debug
+    # build of credx does), against the model's Debug column
+    n_oc = 0
+    if tier == "thorough":
+        with C.overflow_checked():
+            impl_oc = C.run_exec_parallel(ops, nproc=16)
+        for (v, lo, hi), op, r, m in zip(cases, ops, impl_oc, model):
+            m_debug = m.split(" | ")[1]
+            expect = "create-ok verify-ok verify_rt-ok" if m_debug.startswith("ok") else ("panic" if m_debug.startswith("panic") else "create-err")
+            if r["r"] != "ok":
+                outcome = r["r"]
+            elif r["issue"] != "ok":
+                outcome = "issue-err"
+            elif r["create"] != "ok":
+                outcome = "create-err" if r["create"] != "panic" else "panic"
+            else:
+                outcome = f"create-ok verify-{r['verify']} verify_rt-{r['verify_rt']}"
+            n_oc += 1
+            hist["overflow_checked:" + outcome.split()[0]] = hist.get("overflow_checked:" + outcome.split()[0], 0) + 1
+            if outcome != expect:
+                failures.append({"class": None, "witness": True, "text": f"overflow-checked build: v={v} lower={lo} upper={hi} suite={op['suite']} impl={outcome} model(debug)={m_debug}",
+                                 "case": {"v": v, "lower": lo, "upper": hi, "suite": op["suite"], "profile": "oc", "impl": outcome, "model": m}})
     return {
-        "evaluations": len(cases),
+        "evaluations": len(cases) + n_oc,
         "distinct_nontrivial": len(nontrivial),
         "rule": "cases = (v, lower, upper) triples: product of the boundary lattice {MIN,MIN+1,-2^32,-2,-1,0,1,2,2^32,MAX-1,MAX} for both bounds in all four presence patterns with v at bound-1, bound, bound+1 (plus lattice points), and random triples in/out of range; each runs Issuer::sign_credential, Presentation::create, verify and verify after a BARE round trip, alternating BBS/PS, varying claim position and disclosure; distinct by triple; every case is non-trivial (reaches create on both sides)",
         "samples": samples,
